@@ -371,7 +371,8 @@ fn gen_direct(rng: &mut Rng) -> (u64, u64, u64) {
     let psize = rng.range(1, 12) as u64;
     if rng.below(400) == 0 {
         // msm_chunks walks its streams in steps of 2^20: one stream longer than that, now and then
-        let n = (1u64 << 20) + rng.range(1, 40) as u64;
+        // (an exact multiple of the step is its own boundary case)
+        let n = (1u64 << 20) + if rng.chance(1, 3) { 0 } else { rng.range(1, 40) as u64 };
         let m = if rng.chance(1, 2) { u64::MAX } else { n - rng.below(3) as u64 };
         return (n, m, *rng.pick(&[0u64, 4]) | 3 << 4 | LONG_SPARSE);
     }
@@ -471,7 +472,20 @@ fn run_gt(op: &Op) -> Vec<u8> {
             let s: Vec<bls::Fr> = adds.iter().map(|(_, s)| *s).collect();
             let bi: Vec<_> = s.iter().map(|x| x.into_bigint()).collect();
             match v {
-                2 => ser(&Gt::msm(&b, &s).unwrap()),
+                2 => {
+                    // the checked entry point of a group that uses the trait's default `msm`:
+                    // equal lengths, or one side shortened by one or two (buffer-size parameter)
+                    let (bb, ss) = match op.b % 5 {
+                        1 if !b.is_empty() => (&b[..b.len() - 1], &s[..]),
+                        2 if !s.is_empty() => (&b[..], &s[..s.len() - 1]),
+                        3 if s.len() > 1 => (&b[..], &s[..s.len() - 2]),
+                        _ => (&b[..], &s[..]),
+                    };
+                    match Gt::msm(bb, ss) {
+                        Ok(r) => ser(&r),
+                        Err(k) => format!("err:{}", k).into_bytes(),
+                    }
+                },
                 3 => ser(&Gt::msm_bigint(&b, &bi)),
                 4 => ser(&verif_hooks::msm_bigint_plain::<Gt>(&b, &bi)),
                 _ => ser(&verif_hooks::msm_bigint_signed::<Gt>(&b, &bi)),
@@ -484,6 +498,18 @@ fn run_gt(op: &Op) -> Vec<u8> {
 /// square-and-multiply on field operations (no cyclotomic shortcuts).
 fn expect_gt(op: &Op) -> Option<Vec<u8>> {
     let (pool, adds) = gt_inputs(op);
+    if (op.c >> 4) & 0xf == 2 {
+        let n = adds.len();
+        let (nb, ns) = match op.b % 5 {
+            1 if n > 0 => (n - 1, n),
+            2 if n > 0 => (n, n - 1),
+            3 if n > 1 => (n, n - 2),
+            _ => (n, n),
+        };
+        if nb != ns {
+            return Some(format!("err:{}", nb.min(ns)).into_bytes());
+        }
+    }
     let r = modulus::<bls::Fr>();
     let mut per_base: Vec<BigUint> = vec![BigUint::default(); pool.len()];
     for (bi, s) in &adds {
